@@ -118,19 +118,26 @@ def build_kwargs(kind, method, centre, n):
         for i in range(n):
             e = {'burst_method': method, 'center_extrema': centre}
             if i % 4 == 0:
-                e['threshold_kwargs'] = dict(strict)
+                e['threshold_kwargs'] = dict(strict) if method == 'cycles' else {'burst_fraction_threshold': .4, 'min_n_cycles': 2}
             elif i % 4 == 3:
-                e['threshold_kwargs'] = dict(THR2)
-            elif i % 4 == 2:
-                e = {'center_extrema': centre}
+                e['threshold_kwargs'] = dict(THR2) if method == 'cycles' else dict(S.TA1)
+            elif i % 4 == 2 and method == 'cycles':
+                e = {'center_extrema': centre}       # (for 'amp' the method must stay: the default method is 'cycles')
             lst.append(e)
+        return lst
+    if kind == 'lastdiff':
+        lst = [copy.deepcopy(base) for _ in range(n)]
+        lst[-1]['find_extrema_kwargs'] = {'filter_kwargs': {'n_cycles': 2}, 'boundary': 3}
+        if method == 'amp':
+            lst[-1]['burst_kwargs'] = {'amp_threshes': (.25, .5)}
+        lst[-1]['threshold_kwargs'] = dict(THR2) if method == 'cycles' else dict(S.TA1)
         return lst
     if kind == 'alias':
         # the same option set for every epoch, written the short way: ONE dict object repeated n times
         base['threshold_kwargs'] = dict(THR2) if method == 'cycles' else dict(S.TA1)
         return [base] * n
     alt = copy.deepcopy(base)
-    alt['threshold_kwargs'] = dict(THR2) if method == 'cycles' else dict(S.TA1)
+    alt['threshold_kwargs'] = dict(THR2, amp_fraction_threshold=.3) if method == 'cycles' else dict(S.TA1)
     return [copy.deepcopy(base) if i % 2 == 0 else copy.deepcopy(alt) for i in range(n)]
 
 
@@ -142,7 +149,7 @@ def eval_word(case):
     fr = (6, 14) if fs == 64 else (6 * fs / 64, 14 * fs / 64)
     w = ''.join(letters)
     sig = S.word_signal(w)
-    if len(sig) % E or (kind == 'none' and (method, centre) != ('cycles', 'peak')) or (kind == 'sparse' and method != 'cycles'):
+    if len(sig) % E or (kind == 'none' and (method, centre) != ('cycles', 'peak')) or False:
         return SKIP('length not a multiple of the epoch length' if len(sig) % E else 'duplicate configuration')
     sigs = sig.reshape(-1, E)
     n = sigs.shape[0]
@@ -214,7 +221,8 @@ def spaces(tier, seed):
     out = [EpochTables(12, 4)]
     long_q = [(40, 'list', 'cycles', 'peak'), (40, 'list', 'cycles', 'trough'), (40, 'list', 'amp', 'peak'),
               (40, 'alias', 'cycles', 'peak'), (40, 'alias', 'amp', 'trough'), (40, 'sparse', 'cycles', 'peak'),
-              (40, 'sparse', 'cycles', 'trough'), (40, 'dict', 'cycles', 'trough')]
+              (40, 'sparse', 'cycles', 'trough'), (40, 'dict', 'cycles', 'trough'), (40, 'sparse', 'amp', 'peak'),
+              (40, 'lastdiff', 'cycles', 'peak'), (40, 'lastdiff', 'amp', 'trough'), (20, 'lastdiff', 'cycles', 'trough'), (20, 'sparse', 'amp', 'trough')]
     out.append(ProductSpace('W(2,10)-long-epochs', S.word_dims(['a', 'd'], 10) + [long_q], eval_word,
                             describe='10-letter words (80 samples) in 2 epochs of 40 samples: epochs long enough (>= 3 cycles) for '
                                      'per-epoch thresholds to change labels', bounds={'configs': len(long_q)}))
@@ -238,7 +246,7 @@ def spaces(tier, seed):
     if not q:
         out.append(EpochTables(14, 5))
         long_cfg = [(E, kind, method, centre) for E in (32, 48) for kind in ('list', 'alias', 'sparse', 'dict')
-                    for method in ('cycles', 'amp') for centre in ('peak', 'trough') if not (kind == 'sparse' and method == 'amp')]
+                    for method in ('cycles', 'amp') for centre in ('peak', 'trough')]
         out.append(ProductSpace('W(2,12)-long-epochs', S.word_dims(['a', 'd'], 12) + [long_cfg], eval_word, bounds={'configs': len(long_cfg)}))
         out.append(ProductSpace('W(3,6)-epoched-all', S.word_dims(S.alphabet(3), 6) + [CONFIGS], eval_word, bounds={'configs': len(CONFIGS)},
                                 describe='every epoch length x every option kind x methods x centrings'))
